@@ -75,6 +75,18 @@ Definition same_names (a b : list string) : bool :=
 Fixpoint nodup_str (l : list string) : bool :=
   match l with [] => true | x :: t => negb (mem_str x t) && nodup_str t end.
 
+(* prototypes (name, parameter types, return type): every prototype of [a] is, literally, a prototype of [b] *)
+Fixpoint strs_eqb (a b : list string) : bool :=
+  match a, b with
+  | [], [] => true
+  | x :: a', y :: b' => String.eqb x y && strs_eqb a' b'
+  | _, _ => false
+  end.
+Definition proto_eqb (x y : string * list string * string) : bool :=
+  String.eqb (fst (fst x)) (fst (fst y)) && strs_eqb (snd (fst x)) (snd (fst y)) && String.eqb (snd x) (snd y).
+Definition protos_sub (a b : list (string * list string * string)) : bool :=
+  forallb (fun x => existsb (proto_eqb x) b) a.
+
 (* ------------------------------------------------------------------ errors *)
 
 Definition error_name (e : error) : string :=
@@ -136,6 +148,13 @@ Definition value_eqb (a b : value) : bool :=
   match a, b with
   | VInt x, VInt y | VInt64 x, VInt64 y => (x =? y)%Z
   | VDouble x, VDouble y => (x =? y)%N
+  | _, _ => false
+  end.
+
+Fixpoint values_same (a b : list value) : bool :=
+  match a, b with
+  | [], [] => true
+  | x :: a', y :: b' => value_eqb x y && values_same a' b'
   | _, _ => false
   end.
 
@@ -216,6 +235,32 @@ Definition numty_for (w : wview) (t : ty) : numty :=
 
 Inductive dimspec := DimNone | DimFixed (d : nat) | DimDispatch (ds : list N) (default : code).
 
+(* how a C scalar argument becomes a field of the algorithm's struct:
+   unchanged | `if x == 0 { None } else { Some(x) }` | `if x <= 0.0 { None } else { Some(x) }` (x an f64, as bits) *)
+Inductive pconv := PSame | PZeroNone | PNonPosNone.
+Definition pconv_of_name (s : string) : option pconv :=
+  if String.eqb s "same" then Some PSame else if String.eqb s "zero_none" then Some PZeroNone
+  else if String.eqb s "nonpositive_none" then Some PNonPosNone else None.
+Definition conv_param (k : pconv) (x : N) : option N :=
+  match k with
+  | PSame => Some x
+  | PZeroNone => if (x =? 0)%N then None else Some x
+  | PNonPosNone => if fle (f64_of_bits x) (Floats.SpecFloat.S754_zero false) then None else Some x
+  end.
+
+(* the fields of each algorithm's struct, in the order in which this model (and the harness) lists the
+   parameters handed to the Rust algorithm *)
+Definition alg_fields (alg : string) : option (list string) :=
+  if String.eqb alg "Rcb" then Some ["iter_count"; "tolerance"]%string
+  else if String.eqb alg "Rib" then Some ["iter_count"; "tolerance"]%string
+  else if String.eqb alg "HilbertCurve" then Some ["part_count"; "order"]%string
+  else if String.eqb alg "Greedy" then Some ["part_count"]%string
+  else if String.eqb alg "KarmarkarKarp" then Some ["part_count"]%string
+  else if String.eqb alg "CompleteKarmarkarKarp" then Some ["tolerance"]%string
+  else if String.eqb alg "FiducciaMattheyses" then
+    Some ["max_passes"; "max_moves_per_pass"; "max_imbalance"; "max_bad_move_in_a_row"]%string
+  else None.
+
 Record centry := mk_centry {
   ce_guarded : bool;                      (* algorithm call lexically inside the catch_unwind closure *)
   ce_pre : list (precheck * code);        (* early returns before the guarded region, in order *)
@@ -223,7 +268,11 @@ Record centry := mk_centry {
   ce_dim : dimspec;
   ce_ok : code;
   ce_err : option code;                   (* None: Error::from(err); Some c: every Err becomes c *)
-  ce_w : wview }.
+  ce_w : wview;
+  ce_alg : string;                        (* the coupe:: struct that is built *)
+  ce_arity : nat;                         (* number of scalar parameters of the C function *)
+  ce_params : list (nat * pconv) }.       (* for each field of [alg_fields ce_alg], in that order: position of the
+                                             C scalar argument that feeds it, and the conversion *)
 
 Fixpoint compile_pre (l : list (string * string)) : option (list (precheck * code)) :=
   match l with
@@ -262,15 +311,41 @@ Definition compile_dim (e : ffi_entry) : option dimspec :=
     if String.eqb (fe_points e) "PointND<D>" then option_map (DimDispatch ds) (code_of_name (fe_dim_default e)) else None
   end.
 
-Definition compile_entry (e : ffi_entry) : option centry :=
-  match compile_pre (fe_prechecks e), compile_dim e, code_of_name (fe_ok e), compile_w (fe_weights_via e) (fe_weight_types e) with
-  | Some pre, Some dim, Some ok, Some w =>
-    let cp := String.eqb (fe_count_from e) "points" in
-    if cp || String.eqb (fe_count_from e) "weights" then
-      if String.eqb (fe_err e) "from" then Some (mk_centry (fe_guarded e) pre cp dim ok None w)
-      else option_map (fun c => mk_centry (fe_guarded e) pre cp dim ok (Some c) w) (code_of_name (fe_err e))
+Fixpoint index_nat (s : string) (l : list string) : option nat :=
+  match l with
+  | [] => None
+  | x :: t => if String.eqb x s then Some 0 else option_map S (index_nat s t)
+  end.
+
+(* every field of the algorithm's struct must be given by the literal, each exactly once *)
+Definition compile_params (e : ffi_entry) : option (list (nat * pconv)) :=
+  match alg_fields (fe_alg e) with
+  | None => None
+  | Some fs =>
+    if Nat.eqb (List.length (fe_fields e)) (List.length fs) then
+      sequence (map (fun f =>
+        match find (fun x => String.eqb (fst (fst x)) f) (fe_fields e) with
+        | Some (_, conv, arg) =>
+          match index_nat arg (fe_scalar_args e), pconv_of_name conv with
+          | Some i, Some k => Some (i, k)
+          | _, _ => None
+          end
+        | None => None
+        end) fs)
     else None
-  | _, _, _, _ => None
+  end.
+
+Definition compile_entry (e : ffi_entry) : option centry :=
+  match compile_pre (fe_prechecks e), compile_dim e, code_of_name (fe_ok e),
+        compile_w (fe_weights_via e) (fe_weight_types e), compile_params e with
+  | Some pre, Some dim, Some ok, Some w, Some ps =>
+    let cp := String.eqb (fe_count_from e) "points" in
+    let mk err := mk_centry (fe_guarded e) pre cp dim ok err w (fe_alg e) (List.length (fe_scalar_args e)) ps in
+    if cp || String.eqb (fe_count_from e) "weights" then
+      if String.eqb (fe_err e) "from" then Some (mk None)
+      else option_map (fun c => mk (Some c)) (code_of_name (fe_err e))
+    else None
+  | _, _, _, _, _ => None
   end.
 
 Definition find_entry (name : string) (l : list ffi_entry) : option ffi_entry :=
@@ -294,10 +369,16 @@ Inductive outcome :=
        model — the algorithm failed or panicked part-way) *)
 | Unwinds        (* a panic reaches the `extern "C"` boundary (the process aborts with the current toolchain) *)
 | Hangs
-| UB.            (* the caller broke the memory contract of coupe.h *)
+| UB             (* the caller broke the memory contract of coupe.h *)
+| BadArity.      (* not a behaviour of the code: the model was applied to the wrong number of scalar arguments *)
 
 (* result of the code inside the closure handed to catch_unwind *)
 Inductive bres := BRet (c : code) (arr : option (list N)) | BPanic | BHang | BUB.
+
+(* the parameters handed to the Rust algorithm (fields of its struct in [alg_fields] order) from the C scalar
+   arguments [args] (in the order of the C prototype; floats as bits) *)
+Definition build_params (ps : list (nat * pconv)) (args : list N) : option (list (option N)) :=
+  sequence (map (fun '(i, k) => option_map (conv_param k) (nth_opt args i)) ps).
 
 (* fn catch_unwind(f) = std::panic::catch_unwind(f).unwrap_or(crash); without it the panic keeps unwinding *)
 Definition guard (guarded : bool) (crash : code) (b : bres) : outcome :=
@@ -307,6 +388,11 @@ Definition guard (guarded : bool) (crash : code) (b : bres) : outcome :=
   | BHang => Hangs
   | BUB => UB
   end.
+
+(* 0 passes / moves = no limit; max_imbalance <= 0.0 = none (what the struct literal of
+   coupe_fiduccia_mattheyses says, stated here for the theorems) *)
+Definition fm_opt (x : N) : option N := conv_param PZeroNone x.
+Definition fm_imbalance (bits : N) : option N := conv_param PNonPosNone bits.
 
 (* slice::from_raw_parts_mut(partition, n): the first n cells of the caller's array, and the rest *)
 Definition take_slice (n : nat) (p0 : list N) : option (list N * list N) :=
@@ -351,11 +437,17 @@ Section Entries.
     | None => guard (ce_guarded e) crash body
     end.
 
+  Definition with_params (e : centry) (args : list N) (k : list (option N) -> outcome) : outcome :=
+    if Nat.eqb (List.length args) (ce_arity e) then
+      match build_params (ce_params e) args with Some ps => k ps | None => BadArity end
+    else BadArity.
+
   (* ---- coupe_greedy, coupe_karmarkar_karp, coupe_karmarkar_karp_complete ----
-     [rust nt ws param slice]: the Rust algorithm instantiated at [nt] on weights [ws] with its scalar
-     parameter (part_count, or the tolerance's bits) and the output slice's initial content *)
-  Definition entry_num (e : centry) (rust : numty -> list value -> N -> list N -> res (list N))
-             (p0 : list N) (weights : data) (param : N) : outcome :=
+     [rust nt ws params slice]: the Rust algorithm instantiated at [nt] on weights [ws] with its parameters
+     and the output slice's initial content *)
+  Definition entry_num (e : centry) (rust : numty -> list value -> list (option N) -> list N -> res (list N))
+             (p0 : list N) (weights : data) (args : list N) : outcome :=
+    with_params e args (fun params =>
     let n := dlen weights in
     pre_then e {| px_len_mismatch := false; px_weights_not_double := negb (ty_eqb (dtype weights) TDouble);
                   px_adj_not_int64 := false |} p0
@@ -365,15 +457,16 @@ Section Entries.
         let nt := numty_for (ce_w e) (dtype weights) in
         match denote_scalars nt weights with
         | None => BUB
-        | Some ws => finish e rest (rust nt ws param s)
+        | Some ws => finish e rest (rust nt ws params s)
         end
-      end.
+      end).
 
   (* ---- coupe_rcb, coupe_rib (dimension dispatch), coupe_hilbert (fixed dimension 2) ----
      [rust dim points nt ws params slice] *)
   Definition entry_geo (e : centry)
-             (rust : nat -> list (list value) -> numty -> list value -> list N -> list N -> res (list N))
-             (p0 : list N) (dimension : N) (points weights : data) (params : list N) : outcome :=
+             (rust : nat -> list (list value) -> numty -> list value -> list (option N) -> list N -> res (list N))
+             (p0 : list N) (dimension : N) (points weights : data) (args : list N) : outcome :=
+    with_params e args (fun params =>
     let n := if ce_count_points e then dlen points else dlen weights in
     pre_then e {| px_len_mismatch := negb (Nat.eqb (dlen points) (dlen weights));
                   px_weights_not_double := negb (ty_eqb (dtype weights) TDouble);
@@ -395,20 +488,15 @@ Section Entries.
         | DimDispatch ds default =>
           if existsb (N.eqb dimension) ds then call (N.to_nat dimension) else BRet default (Some p0)
         | DimFixed d => call d
-        | DimNone => BUB     (* not a geometric entry: excluded by ffi_entry_shapes *)
+        | DimNone => BUB     (* not a geometric entry: excluded by the typed tables (ffi_*_eq) *)
         end
-      end.
+      end).
 
-  (* ---- coupe_fiduccia_mattheyses ----
-     parameter conversion: 0 passes / moves = no limit; max_imbalance <= 0.0 = none *)
-  Definition fm_opt (x : N) : option N := if (x =? 0)%N then None else Some x.
-  Definition fm_imbalance (bits : N) : option N :=
-    if fle (f64_of_bits bits) (Floats.SpecFloat.S754_zero false) then None else Some bits.
-
+  (* ---- coupe_fiduccia_mattheyses ---- *)
   Definition entry_fm (e : centry)
-             (rust : adjacency -> numty -> list value -> option N -> option N -> option N -> N -> list N -> res (list N))
-             (p0 : list N) (adj : adjacency) (weights : data)
-             (max_passes max_moves imbalance_bits max_bad : N) : outcome :=
+             (rust : adjacency -> numty -> list value -> list (option N) -> list N -> res (list N))
+             (p0 : list N) (adj : adjacency) (weights : data) (args : list N) : outcome :=
+    with_params e args (fun params =>
     let n := dlen weights in
     pre_then e {| px_len_mismatch := false; px_weights_not_double := negb (ty_eqb (dtype weights) TDouble);
                   px_adj_not_int64 := negb (ty_eqb (a_type adj) TInt64) |} p0
@@ -418,8 +506,7 @@ Section Entries.
         let nt := numty_for (ce_w e) (dtype weights) in
         match denote_scalars nt weights with
         | None => BUB
-        | Some ws =>
-          finish e rest (rust adj nt ws (fm_opt max_passes) (fm_opt max_moves) (fm_imbalance imbalance_bits) max_bad s)
+        | Some ws => finish e rest (rust adj nt ws params s)
         end
-      end.
+      end).
 End Entries.
